@@ -23,9 +23,6 @@ const (
 	fCancelWrite = "C18-cancelled-subscribe-closes-shared-conn"
 	// The client closes a connection as "empty" while a new subscriber is being registered on it.
 	fCloseRace = "C18-subscribe-races-connection-close"
-	// sendPing stores lastPingSentAt after the ping was written; a pong that is processed before that
-	// store looks older than the ping, and the next tick closes a perfectly healthy connection.
-	fPingRace = "C18-ping-timestamp-race-closes-healthy-conn"
 )
 
 type viol struct {
@@ -103,9 +100,6 @@ func judge(o *outcome) []viol {
 	}
 	for _, m := range o.liveness {
 		add("", "never happened (re-sampled twice after %v): %s", grace, m)
-	}
-	if o.leak != "" {
-		add("", "%s", o.leak)
 	}
 
 	for i, st := range w.subs {
@@ -193,9 +187,6 @@ func judge(o *outcome) []viol {
 			legit := st.dropped || lenient || st.silenced || (w.dropTouched(k) && (st.seen == 0 || (st.conn != nil && st.conn.dropped)))
 			if !legit {
 				switch {
-				case connErr.closedByClient && !sse && c.Ping != nil && st.conn != nil && st.conn.pings > 0 && st.conn.pongs >= st.conn.pings-1:
-					add(fPingRace, "sub %d was ended with %q by the client's pong timeout although the upstream answered the pings on its connection (pings %d, pongs %d, slowest pong %v, ping interval %dms)",
-						i, connErr.Err, st.conn.pings, st.conn.pongs, st.conn.pongLat, c.Ping.IntervalMs)
 				case connErr.closedByClient && !sse:
 					// Not attributed to the recorded lookup/registration race: that one fails Subscribe, it never
 					// ends a registered subscription (the window for that is a few instructions wide).
@@ -207,6 +198,28 @@ func judge(o *outcome) []viol {
 				}
 			}
 		}
+	}
+	if o.leak != "" {
+		// getOrDial wakes the waiters of a coalesced dial before it registers the connection in the pool. When
+		// the connection has already lived its whole life by then (a waiter subscribed, its stream ended, the
+		// connection was closed and deregistered), the late registration leaves a closed connection in the
+		// pool for good. That is the same window as the recorded lookup/registration race and shows up together
+		// with it (the dialler's own subscribe finds the connection closed).
+		finding := ""
+		upstreamOpen := 0
+		for _, uc := range w.conns {
+			if !uc.closed {
+				upstreamOpen++
+			}
+		}
+		if o.stats.WSConns > 0 && o.stats.SSEConns == 0 && upstreamOpen == 0 {
+			for _, v := range vs {
+				if v.finding == fCloseRace {
+					finding = fCloseRace
+				}
+			}
+		}
+		add(finding, "%s", o.leak)
 	}
 	return vs
 }
